@@ -118,3 +118,25 @@ def run(ctx):
             else:
                 rs.unrec("%s (%s): %s" % (name, how, detail[:160]))
         ctx.floor(rs, 16)
+
+    if ctx.want("R5"):
+        rs = ctx.rule("R5", "text-interface solver: after a call that failed half-way (a declaration refused by the solver process) every later call has the outcome it has when the failing call is never made")
+        from . import solver_deep as sd
+        for seq, kind, got, want, illegal in sd.text_failure_results(repo, ctx.tier):
+            tag = " ; ".join(sd.F_NAMES[x] for x in seq)
+            key = "text-solver|%s" % ",".join(seq)
+            if kind != "ok":
+                rs.unrec("%s: %s" % (tag, str(got)[:160]))
+                continue
+            diffs = [(a, b) for a, b in zip(got, want) if a != b]
+            if len(got) != len(want) or diffs:
+                a, b = diffs[0] if diffs else (got[-1], None)
+                ctx.finding(rs, key, "%s: after the failed call, %s %s %r; had the failing call never been made it %s %r%s"
+                            % (tag, sd.F_NAMES.get(a[0], a[0]), a[1][0], a[1][1], b[1][0] if b else "-", b[1][1] if b else "-",
+                               (" [solver: %s]" % illegal[0]) if illegal else ""), "pysmt/smtlib/solver.py")
+            elif illegal:
+                ctx.finding(rs, key + "|stream", "%s: the command stream after the failed call is not legal: %s" % (tag, illegal[0]),
+                            "pysmt/smtlib/solver.py")
+            else:
+                rs.ok({"calls": tag, "result": "every later call as without the failing call; legal stream"})
+        ctx.floor(rs, 20)
